@@ -36,7 +36,8 @@ def prop(pid: str, rules: List, explanation: str, not_decided: str, assumptions:
 
 prop("C14", [_lazy("state", "rule_ctx1"), _lazy("state", "rule_ctx2"), _lazy("state", "rule_ctx3"),
              _lazy("state", "rule_glob1"), _lazy("state", "rule_cache1"), _lazy("state", "rule_cache2"),
-             _lazy("emit", "rule_label1"), _lazy("infer", "rule_val1"), _lazy("state", "rule_pure1")],
+             _lazy("emit", "rule_label1"), _lazy("infer", "rule_val1"), _lazy("state", "rule_pure1"),
+             _lazy("layout", "rule_nameord1")],
      "Static decision of the clauses of C14 that are visible in code shape: the thread-local reference context is "
      "saved/restored on every exit and only used through `with` (CTX-1..3); no function reachable from a library "
      "entry point writes module-level, class-level, closure or default-argument state (GLOB-1, effect summaries "
@@ -54,7 +55,7 @@ prop("C15", [_lazy("state", "rule_tls1"), _lazy("state", "rule_glob1"), _lazy("s
 
 prop("C17", [_lazy("cli_fail", "rule_atom"), _lazy("cli_fail", "rule_exc1"), _lazy("cli_fail", "rule_exit1"),
              _lazy("cli_fail", "rule_out1"), _lazy("cli_fail", "rule_load1"), _lazy("cli_fail", "rule_lookup1"),
-             _lazy("cli_fail", "rule_enc1")],
+             _lazy("cli_fail", "rule_enc1"), _lazy("cli_fail", "rule_keychk1")],
      "Static decision of: every file-mutating call reachable from main is classified, and each write-capable one "
      "is a `with` block whose body only writes locals defined before the open, with no call that can fail "
      "reachable afterwards in that function or, after it returns, in its callers up to main (ATOM-1/2, CFG "
@@ -183,7 +184,8 @@ prop("C11", [_lazy("emit", "rule_inj2"), _lazy("emit", "rule_inj5"), _lazy("emit
 prop("C03", [_lazy("imports", "rule_imp1"), _lazy("imports", "rule_imp2"), _lazy("imports", "rule_shadow1"),
              _lazy("emit", "rule_label1"), _lazy("emit", "rule_dup1"), _lazy("emit", "rule_fwd1"),
              _lazy("emit", "rule_inj2"), _lazy("emit", "rule_inj3"), _lazy("emit", "rule_inj5"), _lazy("emit", "rule_sib1_layout"),
-             _lazy("layout", "rule_lay1"), _lazy("layout", "rule_lay2"), _lazy("layout", "rule_imp4")],
+             _lazy("layout", "rule_lay1"), _lazy("layout", "rule_lay2"), _lazy("layout", "rule_imp4"),
+             _lazy("layout", "rule_nameord1")],
      "Static decision of: every import tuple a generator can emit (symbolic components expanded over the class "
      "tables) names an existing module and a name bound at its top level, read from the installed sources "
      "(IMP-1); every identifier in an emitted code fragment (templates, default/factory/converter strings, bases) "
